@@ -20,8 +20,9 @@
 
    Conventions.  orb.Orientation is Z: CCW = 1, CW = -1, 0 = none.  Go panics (index out of
    range in First/Last on an empty line) are not represented as results: [lfirst]/[llast] return
-   the origin on an empty line, and Geo/Proofs.v proves ([join_lines_nonempty]) that [join] never
-   evaluates them on an empty line.  Running out of fuel is an explicit result. *)
+   the origin on an empty line; Geo/Conserve.v proves that [join] never evaluates them on an
+   empty line (loop invariant [consP]/[chain_rel]: remaining segments keep >= 2 points, chain
+   segments >= 1; theorem [join_lines_nonempty] for the result).  Running out of fuel is an explicit result. *)
 From Coq Require Import ZArith List Bool.
 Import ListNotations.
 Open Scope Z_scope.
